@@ -678,6 +678,10 @@ class Oracles:
             return
         w = inv["where"]
         moved = sum(1 for r in run.log if r[0] in ("put", "get") and (r[3] == w or r[6] == w))
+        if inv["kind"] in ("negative-processing-delay", "negative-delay-from-callable") and w in self.nrec:
+            # the delay is only consulted once a unit of work is complete (combiner: recipe gathered)
+            nr = self.nrec[w]
+            moved = sum(1 for l in nr.life if (nr.type != "combiner" or "complete_t" in l))
         if moved == 0 and inv["kind"] not in ("edge-capacity", "buffer-mode", "nonblocking-source-zero-iat", "index-out-of-range-in", "index-out-of-range-out"):
             self.probe("c20_invalid_not_exercised")
             return
